@@ -170,6 +170,10 @@ class ProgRun:
                         ref.edge(active)
                         if any(ref.rst[a] for a in active):
                             P["edge_under_reset"] = P.get("edge_under_reset", 0) + 1
+                if st["k"] == "ev":
+                    for ln, lvl in changes.items():
+                        if ln.endswith(".clk"):
+                            ref.set_clock(ln[:-4], lvl)
                 new = compare(idx)
                 if new != obs:
                     P["obs_changes"] = P.get("obs_changes", 0) + 1
@@ -188,7 +192,7 @@ def count_features(prog):
     import json
     txt = json.dumps(prog)
     feats = {}
-    for key, tag in (('"if"', "if"), ('"switch"', "switch"), ('"fsm"', "fsm"), ('"part"', "part"), ('"array"', "array"),
+    for key, tag in (('"clk"', "clock_signal_read"), ('"rst"', "reset_signal_read"), ('"if"', "if"), ('"switch"', "switch"), ('"fsm"', "fsm"), ('"part"', "part"), ('"array"', "array"),
                      ('"cat"', "cat"), ('"as_signed"', "as_signed"), ('"matches"', "matches"), ('"reset"', "reset_inserter"),
                      ('"enable"', "enable_inserter"), ('"rename"', "domain_renamer"), ('"print"', "print"),
                      ('"assert"', "assert"), ('"-', "dontcare_pattern")):
